@@ -135,5 +135,10 @@ class KDPseudoLabelWrapper(KDWrapper):
         if self.pseudo_labels.ndim == 1:
             return self.pseudo_labels.tolist()
         if self.pseudo_labels.ndim == 2:
-            return self.pseudo_labels.argmax(dim=1).tolist()
+            if self.threshold is None:
+                return self.pseudo_labels.argmax(dim=1).tolist()
+            # same thresholding as in _getitem_class
+            probs, argmax = self.pseudo_labels.softmax(dim=1).max(dim=1)
+            argmax[probs <= self.threshold] = -1
+            return argmax.tolist()
         raise NotImplementedError
